@@ -384,6 +384,8 @@ pub struct Impl {
     pub db: Option<FileDb>,
     pub maps: Vec<MapSlot>,
     pub cur: usize,
+    /// optional file-name stems per map id (default `m<id>`)
+    pub names: std::collections::BTreeMap<usize, String>,
 }
 
 fn res<T>(r: io::Result<T>, f: impl FnOnce(T) -> String) -> String {
@@ -395,7 +397,7 @@ fn res<T>(r: io::Result<T>, f: impl FnOnce(T) -> String) -> String {
 
 impl Impl {
     pub fn new(dir: &Path) -> Impl {
-        Impl { dir: dir.to_path_buf(), db: None, maps: Vec::new(), cur: 0 }
+        Impl { dir: dir.to_path_buf(), db: None, maps: Vec::new(), cur: 0, names: Default::default() }
     }
     fn db(&mut self) -> io::Result<FileDb> {
         if self.db.is_none() {
@@ -406,7 +408,7 @@ impl Impl {
     /// open (or create) map `idx`
     pub fn open(&mut self, idx: usize, kt: Kt, p: &Params) -> io::Result<()> {
         let db = self.db()?;
-        let name = format!("m{}", idx);
+        let name = self.names.get(&idx).cloned().unwrap_or_else(|| format!("m{}", idx));
         if let Some(pos) = self.maps.iter().position(|m| m.name == name) {
             self.cur = pos;
             if self.maps[pos].handles.is_empty() {
